@@ -50,3 +50,219 @@ Print Assumptions C13_server_released.
 Print Assumptions C13_server_proportional.
 Print Assumptions C13_client_peer_released.
 Print Assumptions C13_query_released.
+
+(* ---- client half, proportional bound (package I, Client_proofs7/8).  For ANY op list: one peer entry per peer with an
+   open connection at most, its connections a duplicate-free non-empty SUBSET of the open ones; per-peer request states
+   keyed by wantlist CIDs plus the CIDs that left the wantlist since that peer's last generated wantlist (`stale_cids`,
+   reset by every poll in which the peer may be sent to); tasks = running lookups of live queries + puts in flight +
+   aborted lookups awaiting the next poll; event queue drained by every poll; new_blocks emptied by get_new_blocks.
+   Two requested clauses are FALSE of the model and of the Rust (…_refuted): (1) a connection (and with its last one the
+   peer entry) leaves the client's table on a Failed report / 1 s request timeout although the connection is still open;
+   (2) a peer blocked in RequestReceived/Sending keeps request states of CIDs nobody wants any more until it may be sent
+   to again (retention of at most its last generated wantlist, no growth: C13_req_states_shrink). *)
+From BS Require Import Types Wantlist Wantlist_proofs Client Client_proofs Client_proofs2 Client_proofs3 Client_proofs4 Client_proofs5 Client_proofs7 Client_proofs8 Client_proofs9 Client_props2.
+From Coq Require Import ZArith List. Import ListNotations.
+Open Scope N_scope.
+
+Theorem C13_client_proportional :
+  forall (sdh : bool) (ops : list cop),
+  let s := st_after sdh ops in
+  (NoDup (map fst (cs_peers s)) /\
+   (forall (p : peer) (ps : peer_state),
+    In (p, ps) (cs_peers s) ->
+    p_conns ps <> [] /\
+    NoDup (p_conns ps) /\
+    incl (p_conns ps) (open_conns p ops) /\
+    (length (p_conns ps) <= length (open_conns p ops))%nat /\ In p (connected_peers ops)) /\
+   (length (cs_peers s) <= length (connected_peers ops))%nat) /\
+  (forall (p : N) (ps : peer_state),
+   al_find N.eqb p (cs_peers s) = Some ps ->
+   NoDup (keys (p_wl ps)) /\
+   (forall c : cid, In c (keys (p_wl ps)) -> In c (wl_cids (cs_wl s)) \/ In c (stale_cids p sdh ops)) /\
+   (length (req (p_wl ps)) <= length (cs_c2q s) + length (stale_cids p sdh ops))%nat) /\
+  (NoDup (map fst (cs_tasks s)) /\
+   (forall (tid : N) (t : task),
+    In (tid, t) (cs_tasks s) ->
+    match t_kind t with
+    | TGet q _ => t_aborted t = false /\ In (q, tid) (cs_abort s) \/ t_aborted t = true /\ In tid (cs_ready s)
+    | TPut bl => bl <> []
+    end) /\
+   length (cs_tasks s) =
+   (length (cs_abort s) + length (filter aborted_get (cs_tasks s)) + length (filter is_put (cs_tasks s)))%nat /\
+   (length (filter aborted_get (cs_tasks s)) <= length (cs_ready s))%nat /\
+   NoDup (cs_ready s) /\
+   incl (cs_ready s) (map fst (cs_tasks s)) /\ (length (cs_ready s) <= length (cs_tasks s))%nat) /\
+  ((forall (p : peer) (c : conn) (f : bool) (es : list gen_entry), ~ In (EvSend p c f es) (cs_queue s)) /\
+   length (cs_queue s) = length (queue_qids (cs_queue s)) /\
+   NoDup (queue_qids (cs_queue s)) /\
+   (forall q : qid,
+    In q (queue_qids (cs_queue s)) ->
+    q < count_gets ops /\
+    ~ In q (out_qids (outs_after sdh ops)) /\ ~ In q (task_qids (cs_tasks s)) /\ ~ In q (c2q_qids (cs_c2q s)))) /\
+  (forall (ops0 : list cop) (ch : list (peer * conn)),
+   ops = ops0 ++ [CPoll ch] ->
+   cs_ready s = [] /\
+   cs_queue s = [] /\
+   (forall (tid : N) (t : task),
+    In (tid, t) (cs_tasks s) ->
+    exists n : N,
+      t_call t = Some n /\
+      t_result t = None /\
+      match t_kind t with
+      | TGet q _ => t_aborted t = false /\ In (q, tid) (cs_abort s)
+      | TPut bl => bl <> []
+      end) /\
+   filter aborted_get (cs_tasks s) = [] /\
+   length (cs_tasks s) = (length (cs_abort s) + length (filter is_put (cs_tasks s)))%nat /\
+   (forall (p : peer) (ps : peer_state),
+    is_open p (st_after sdh ops0) = true ->
+    al_find N.eqb p (cs_peers s) = Some ps ->
+    stale_cids p sdh ops = [] /\
+    incl (keys (p_wl ps)) (wl_cids (cs_wl s)) /\ (length (req (p_wl ps)) <= length (cs_c2q s))%nat)) /\
+  cs_new_blocks (fst (cstep s CTakeNewBlocks)) = [].
+Proof. exact (@Client_props2.C13_client_proportional). Qed.
+
+Theorem C13_peers_bounded :
+  forall (sdh : bool) (ops : list cop),
+  let s := st_after sdh ops in
+  NoDup (map fst (cs_peers s)) /\
+  (forall (p : peer) (ps : peer_state),
+   In (p, ps) (cs_peers s) ->
+   p_conns ps <> [] /\
+   NoDup (p_conns ps) /\
+   incl (p_conns ps) (open_conns p ops) /\
+   (length (p_conns ps) <= length (open_conns p ops))%nat /\ In p (connected_peers ops)) /\
+  (length (cs_peers s) <= length (connected_peers ops))%nat.
+Proof. exact (@Client_props2.C13_peers_bounded). Qed.
+
+Theorem C13_conns_step :
+  forall (s : cstate) (o : cop) (p : peer) (ps' : peer_state),
+  NoDup (map fst (cs_peers s)) ->
+  In (p, ps') (cs_peers (fst (cstep s o))) ->
+  (exists c : conn, o = CNewConn p c /\ al_find N.eqb p (cs_peers s) = None /\ p_conns ps' = [c]) \/
+  (exists ps : peer_state,
+     al_find N.eqb p (cs_peers s) = Some ps /\
+     (p_conns ps' = p_conns ps \/
+      (exists c : conn, o = CNewConn p c /\ p_conns ps' = p_conns (add_conn c ps)) \/
+      (exists c : conn, o = CConnClosed p c /\ p_conns ps' = n_remove c (p_conns ps)) \/
+      (exists (ch : list (peer * conn)) (c0 : N),
+         o = CPoll ch /\
+         p_conns ps' = n_remove c0 (p_conns ps) /\
+         (p_ss ps = SsFailed c0 \/
+          (exists t : time, p_ss ps = SsRequested t c0 /\ (cs_now s - t <? RECEIVE_REQUEST_TIMEOUT) = false))))).
+Proof. exact (@Client_props2.C13_conns_step). Qed.
+
+Theorem C13_req_states_bounded :
+  forall (sdh : bool) (ops : list cop) (p : N) (ps : peer_state),
+  let s := st_after sdh ops in
+  al_find N.eqb p (cs_peers s) = Some ps ->
+  NoDup (keys (p_wl ps)) /\
+  (forall c : cid, In c (keys (p_wl ps)) -> In c (wl_cids (cs_wl s)) \/ In c (stale_cids p sdh ops)) /\
+  (length (req (p_wl ps)) <= length (cs_c2q s) + length (stale_cids p sdh ops))%nat.
+Proof. exact (@Client_props2.C13_req_states_bounded). Qed.
+
+Theorem C13_req_states_after_poll :
+  forall (sdh : bool) (ops : list cop) (ch : list (peer * conn)) (p : peer) (ps : peer_state),
+  let s := st_after sdh (ops ++ [CPoll ch]) in
+  is_open p (st_after sdh ops) = true ->
+  al_find N.eqb p (cs_peers s) = Some ps ->
+  incl (keys (p_wl ps)) (wl_cids (cs_wl s)) /\ (length (req (p_wl ps)) <= length (cs_c2q s))%nat.
+Proof. exact (@Client_props2.C13_req_states_after_poll). Qed.
+
+Theorem C13_req_states_shrink :
+  forall (s : cstate) (o : cop) (p : peer) (ps' : peer_state),
+  NoDup (map fst (cs_peers s)) ->
+  INVBJ s ->
+  is_open p s = false \/ (forall ch : list (peer * conn), o <> CPoll ch) ->
+  al_find N.eqb p (cs_peers (fst (cstep s o))) = Some ps' ->
+  keys (p_wl ps') = [] \/
+  (exists ps : peer_state, al_find N.eqb p (cs_peers s) = Some ps /\ incl (keys (p_wl ps')) (keys (p_wl ps))).
+Proof. exact (@Client_props2.C13_req_states_shrink). Qed.
+
+Theorem C13_tasks_bounded :
+  forall (sdh : bool) (ops : list cop),
+  let s := st_after sdh ops in
+  NoDup (map fst (cs_tasks s)) /\
+  (forall (tid : N) (t : task),
+   In (tid, t) (cs_tasks s) ->
+   match t_kind t with
+   | TGet q _ => t_aborted t = false /\ In (q, tid) (cs_abort s) \/ t_aborted t = true /\ In tid (cs_ready s)
+   | TPut bl => bl <> []
+   end) /\
+  length (cs_tasks s) =
+  (length (cs_abort s) + length (filter aborted_get (cs_tasks s)) + length (filter is_put (cs_tasks s)))%nat /\
+  (length (filter aborted_get (cs_tasks s)) <= length (cs_ready s))%nat /\
+  NoDup (cs_ready s) /\
+  incl (cs_ready s) (map fst (cs_tasks s)) /\ (length (cs_ready s) <= length (cs_tasks s))%nat.
+Proof. exact (@Client_props2.C13_tasks_bounded). Qed.
+
+Theorem C13_tasks_after_poll :
+  forall (sdh : bool) (ops : list cop) (ch : list (peer * conn)),
+  let s := st_after sdh (ops ++ [CPoll ch]) in
+  cs_ready s = [] /\
+  cs_queue s = [] /\
+  (forall (tid : N) (t : task),
+   In (tid, t) (cs_tasks s) ->
+   exists n : N,
+     t_call t = Some n /\
+     t_result t = None /\
+     match t_kind t with
+     | TGet q _ => t_aborted t = false /\ In (q, tid) (cs_abort s)
+     | TPut bl => bl <> []
+     end) /\
+  filter aborted_get (cs_tasks s) = [] /\
+  length (cs_tasks s) = (length (cs_abort s) + length (filter is_put (cs_tasks s)))%nat.
+Proof. exact (@Client_props2.C13_tasks_after_poll). Qed.
+
+Theorem C13_queue_bounded :
+  forall (sdh : bool) (ops : list cop),
+  let s := st_after sdh ops in
+  (forall (p : peer) (c : conn) (f : bool) (es : list gen_entry), ~ In (EvSend p c f es) (cs_queue s)) /\
+  length (cs_queue s) = length (queue_qids (cs_queue s)) /\
+  NoDup (queue_qids (cs_queue s)) /\
+  (forall q : qid,
+   In q (queue_qids (cs_queue s)) ->
+   q < count_gets ops /\
+   ~ In q (out_qids (outs_after sdh ops)) /\ ~ In q (task_qids (cs_tasks s)) /\ ~ In q (c2q_qids (cs_c2q s))).
+Proof. exact (@Client_props2.C13_queue_bounded). Qed.
+
+Theorem C13_new_blocks_taken :
+  forall s : cstate,
+  cs_new_blocks (fst (cstep s CTakeNewBlocks)) = [] /\
+  snd (cstep s CTakeNewBlocks) = [ONewBlocks (cs_new_blocks s)].
+Proof. exact (@Client_props2.C13_new_blocks_taken). Qed.
+
+Theorem C13_peers_exact_refuted :
+  exists (ops : list cop) (p : peer),
+    open_conns p ops <> [] /\ al_find N.eqb p (cs_peers (st_after true ops)) = None.
+Proof. exact (@Client_props2.C13_peers_exact_refuted). Qed.
+
+Theorem C13_conns_exact_refuted :
+  exists (ops : list cop) (p : N) (ps : peer_state) (c : conn),
+    al_find N.eqb p (cs_peers (st_after true ops)) = Some ps /\ In c (open_conns p ops) /\ ~ In c (p_conns ps).
+Proof. exact (@Client_props2.C13_conns_exact_refuted). Qed.
+
+Theorem C13_req_states_after_poll_refuted :
+  exists (ops : list cop) (ch : list (peer * conn)) (p : N) (ps : peer_state),
+    let s := st_after true (ops ++ [CPoll ch]) in
+    al_find N.eqb p (cs_peers s) = Some ps /\
+    wl_cids (cs_wl s) = [] /\
+    cs_c2q s = [] /\
+    cs_abort s = [] /\
+    cs_tasks s = [] /\
+    keys (p_wl ps) = [ex_c1; ex_c2; ex_c3] /\ stale_cids p true (ops ++ [CPoll ch]) = [ex_c1; ex_c2; ex_c3].
+Proof. exact (@Client_props2.C13_req_states_after_poll_refuted). Qed.
+
+Print Assumptions C13_client_proportional.
+Print Assumptions C13_peers_bounded.
+Print Assumptions C13_conns_step.
+Print Assumptions C13_req_states_bounded.
+Print Assumptions C13_req_states_after_poll.
+Print Assumptions C13_req_states_shrink.
+Print Assumptions C13_tasks_bounded.
+Print Assumptions C13_tasks_after_poll.
+Print Assumptions C13_queue_bounded.
+Print Assumptions C13_new_blocks_taken.
+Print Assumptions C13_peers_exact_refuted.
+Print Assumptions C13_conns_exact_refuted.
+Print Assumptions C13_req_states_after_poll_refuted.
